@@ -7,10 +7,10 @@ import (
 	"fmt"
 	"os"
 	"path/filepath"
-	"sort"
+	"strconv"
+	"time"
 	"strings"
 	"sync"
-	"time"
 
 	"golang.org/x/perf/internal/verifh/hx"
 	"golang.org/x/perf/storage/benchfmt"
@@ -58,19 +58,73 @@ func runIDsSeqOnce(id int, ops []string) bool {
 			hx.Printf("crash %d %s\n", id, strings.ReplaceAll(fmt.Sprint(e), "\n", " "))
 		}
 	}()
-	day := time.Now().UTC().Format("20060102")
+	setDayOffset(0)
+	day := utcDay()
 	dbCounter++
 	d, err := db.OpenSQL("sqlite3", fmt.Sprintf("file:c20ids_%d_%d?mode=memory&cache=shared", os.Getpid(), dbCounter))
 	if err != nil {
 		panic(err)
 	}
 	defer d.Close()
-	var ids []string
+	var ids, opsOut, rids []string
 	for _, op := range ops {
-		// op = <m><c|a>
-		var m int
+		// op = R<k>:<m><c|a>  ReplaceUpload of the k-th id given out so far (k < 0: a foreign id)
+		if op[0] == 'R' {
+			var k, m int
+			var fin byte
+			fmt.Sscanf(op, "R%d:%d%c", &k, &m, &fin)
+			target := ""
+			switch {
+			case k == -1:
+				target = "20200101.7" // never created, past day
+			case k == -2:
+				target = "20270101.2" // never created, future day
+			case k == -3:
+				target = utcDay() + ".9" // never created, current day, leaves a gap
+			default:
+				var given []string
+				for _, i := range ids {
+					if i != "!" {
+						given = append(given, i)
+					}
+				}
+				if len(given) == 0 {
+					continue
+				}
+				target = given[k%len(given)]
+			}
+			u, err := d.ReplaceUpload(target)
+			if err != nil {
+				panic(err)
+			}
+			for j := 0; j < m; j++ {
+				if err := u.InsertRecord(idsRecord(target, j)); err != nil {
+					panic(err)
+				}
+			}
+			if fin == 'c' {
+				if err := u.Commit(); err != nil {
+					panic(err)
+				}
+			} else {
+				u.Abort()
+			}
+			opsOut = append(opsOut, fmt.Sprintf("R%s:%d%c", target, m, fin))
+			seen := false
+			for _, r := range rids {
+				seen = seen || r == target
+			}
+			if !seen {
+				rids = append(rids, target)
+			}
+			continue
+		}
+		// op = <m><c|a>@<day offset>
+		var m, off int
 		var fin byte
-		fmt.Sscanf(op, "%d%c", &m, &fin)
+		fmt.Sscanf(op, "%d%c@%d", &m, &fin, &off)
+		setDayOffset(off)
+		opsOut = append(opsOut, fmt.Sprintf("%d%c@%s", m, fin, utcDay()))
 		u, err := d.NewUpload(context.Background())
 		if err != nil {
 			ids = append(ids, "!")
@@ -101,22 +155,37 @@ func runIDsSeqOnce(id int, ops []string) bool {
 	}
 	ul.Close()
 	nup, _ := d.CountUploads()
-	if utcDay() != day {
-		return false
+	hx.Printf("case %d kind=ids day=%s ops=%s tag=ids\n", id, day, strings.Join(opsOut, ","))
+	var rcounts []string
+	for _, r := range rids {
+		rcounts = append(rcounts, fmt.Sprintf("%s:%d", r, countQuery(d, "upload:"+r)))
 	}
-	hx.Printf("case %d kind=ids day=%s ops=%s tag=ids\n", id, day, strings.Join(ops, ","))
-	hx.Printf("obs %d ids=%s counts=%s list=%s nup=%d all=%d\n", id, joinOr(ids), joinOr(counts), joinOr(list), nup, countQuery(d, "upload>"))
-	hx.Printf("sobs %d idsok=%s\n", id, b01(idsOK(ids)))
+	hx.Printf("obs %d ids=%s counts=%s rcounts=%s list=%s nup=%d all=%d\n", id, joinOr(ids), joinOr(counts), joinOr(rcounts), joinOr(list), nup, countQuery(d, "upload>"))
+	var given []string // a refused NewUpload hands out no id
+	for _, i := range ids {
+		if i != "!" {
+			given = append(given, i)
+		}
+	}
+	hx.Printf("sobs %d idsok=%s\n", id, b01(idsOK(given)))
 	return true
 }
 
-// G goroutines x M NewUpload on one database file; committed and aborted uploads mixed
+// statistics over the concurrent cases of this run
+var concOrders = map[string]bool{}
+var concCases, concSucc, concTried int
+
+// G goroutines x M NewUpload on one database file; committed and aborted uploads mixed.
+// Judged: ids pairwise distinct, well formed, strictly increasing per goroutine (each goroutine
+// creates its uploads one after the other), one Uploads row per id, committed uploads have exactly
+// their record and aborted ones none.
 func runIDsConc(id, g, m int) {
 	defer func() {
 		if e := recover(); e != nil {
 			hx.Printf("crash %d %s\n", id, strings.ReplaceAll(fmt.Sprint(e), "\n", " "))
 		}
 	}()
+	setDayOffset(0)
 	dbCounter++
 	path := filepath.Join(os.Getenv("VERIF_RUNDIR"), fmt.Sprintf("conc-%d-%d.db", os.Getpid(), dbCounter))
 	os.Remove(path)
@@ -129,23 +198,33 @@ func runIDsConc(id, g, m int) {
 		os.Remove(path)
 		os.Remove(path + "-journal")
 	}()
-	hx.Printf("case %d kind=conc g=%d m=%d tag=conc\n", id, g, m)
 	type got struct {
 		id        string
+		gi        int
 		committed bool
 	}
 	var mu sync.Mutex
 	var all []got
+	var order []byte // goroutine index of every successful NewUpload, in completion order
 	var wg sync.WaitGroup
+	start := make(chan struct{})
 	for gi := 0; gi < g; gi++ {
 		wg.Add(1)
+		pause := hx.NewRand(uint64(1000*id + gi))
 		go func(gi int) {
 			defer wg.Done()
+			<-start
 			for j := 0; j < m; j++ {
+				// short pauses let the other goroutines in between (finer interleavings)
+				time.Sleep(time.Duration(pause.Intn(400)) * time.Microsecond)
 				u, err := d.NewUpload(context.Background())
 				if err != nil {
 					continue
 				}
+				mu.Lock()
+				order = append(order, byte('a'+gi))
+				mu.Unlock()
+				time.Sleep(time.Duration(pause.Intn(200)) * time.Microsecond)
 				commit := (gi+j)%2 == 0
 				ok := false
 				if commit {
@@ -158,26 +237,33 @@ func runIDsConc(id, g, m int) {
 					u.Abort()
 				}
 				mu.Lock()
-				all = append(all, got{u.ID, ok})
+				all = append(all, got{u.ID, gi, ok})
 				mu.Unlock()
 			}
 		}(gi)
 	}
+	close(start)
 	wg.Wait()
-	distinct, format := true, true
+	distinct, format, mono := true, true, true
 	seen := map[string]bool{}
-	var ids []string
+	lastSeq := map[int]int{}
 	for _, x := range all {
 		if seen[x.id] {
 			distinct = false
 		}
 		seen[x.id] = true
-		if !idRe.MatchString(x.id) {
+		mm := idRe.FindStringSubmatch(x.id)
+		if mm == nil {
 			format = false
+			continue
 		}
-		ids = append(ids, x.id)
+		// `all` holds each goroutine's uploads in its own creation order
+		n, _ := strconv.Atoi(mm[2])
+		if n <= lastSeq[x.gi] {
+			mono = false
+		}
+		lastSeq[x.gi] = n
 	}
-	sort.Strings(ids)
 	nup, _ := d.CountUploads()
 	rows := nup >= len(all) && nup <= g*m
 	atomic := true
@@ -187,15 +273,46 @@ func runIDsConc(id, g, m int) {
 			atomic = false
 		}
 	}
-	fmt.Fprintf(os.Stderr, "conc case %d: %d/%d NewUpload succeeded\n", id, len(all), g*m)
-	hx.Printf("sobs %d distinct=%s fmt=%s rows=%s atomic=%s\n", id, b01(distinct), b01(format), b01(rows), b01(atomic))
+	// was the completion order a real interleaving (not goroutine after goroutine)?
+	switches := 0
+	for i := 1; i < len(order); i++ {
+		if order[i] != order[i-1] {
+			switches++
+		}
+	}
+	tag := "conc"
+	if switches >= g {
+		tag += "+conc-interleaved"
+	}
+	if len(all) < g*m {
+		tag += "+conc-refused"
+	}
+	fmt.Fprintf(os.Stderr, "conc case %d g=%d m=%d order=%s ok=%d/%d\n", id, g, m, order, len(all), g*m)
+	concOrders[fmt.Sprintf("%d/%d/%s", g, m, order)] = true
+	concCases++
+	concSucc += len(all)
+	concTried += g * m
+	hx.Printf("case %d kind=conc g=%d m=%d tag=%s\n", id, g, m, tag)
+	hx.Printf("sobs %d distinct=%s fmt=%s mono=%s rows=%s atomic=%s\n", id, b01(distinct), b01(format), b01(mono), b01(rows), b01(atomic))
 }
 
 func runIDs(g *gen) {
-	for i := 0; i < hx.N(6, 60); i++ {
+	for i := 0; i < hx.N(18, 180); i++ {
 		var ops []string
 		for n := 1 + g.r.Intn(8); n > 0; n-- {
-			ops = append(ops, fmt.Sprintf("%d%c", g.r.Intn(5), hx.Pick(g.r, []byte{'c', 'a'})))
+			off := 0
+			if i%2 == 1 {
+				off = g.r.Intn(4)
+			}
+			ops = append(ops, fmt.Sprintf("%d%c@%d", g.r.Intn(5), hx.Pick(g.r, []byte{'c', 'a'}), off))
+			if i%3 == 2 && g.r.Chance(1, 2) {
+				// reindex: mostly an existing upload, sometimes an id that was never created
+				k := g.r.Intn(6)
+				if g.r.Chance(1, 4) {
+					k = -1 - g.r.Intn(3)
+				}
+				ops = append(ops, fmt.Sprintf("R%d:%d%c", k, g.r.Intn(4), hx.Pick(g.r, []byte{'c', 'a'})))
+			}
 		}
 		id := g.id
 		g.id++
@@ -203,11 +320,18 @@ func runIDs(g *gen) {
 			runIDsSeq(id, ops)
 		}
 	}
-	for i := 0; i < hx.N(2, 12); i++ {
+	for i := 0; i < hx.N(4, 40); i++ {
 		id := g.id
 		g.id++
 		if !g.skip(id) {
-			runIDsConc(id, 2+g.r.Intn(4), 3+g.r.Intn(5))
+			runIDsConc(id, 2+g.r.Intn(hx.N(4, 7)), 3+g.r.Intn(hx.N(5, 10)))
 		}
+	}
+	// how many different completion orders (interleavings) the concurrent cases showed
+	hx.Printf("info conc cases=%d distinct_orders=%d newupload_ok=%d/%d\n", concCases, len(concOrders), concSucc, concTried)
+	id := g.id
+	g.id++
+	if !g.skip(id) {
+		hx.Printf("case %d kind=concsum cases=%d tag=conc-distinct-orders-%d\n", id, concCases, len(concOrders))
 	}
 }
